@@ -252,15 +252,29 @@ pub fn stream_bytes(s: &Stream) -> Result<Vec<u8>, EncFail> {
     }
 }
 
+/// One encode of `case` in `mode` (no serialisation).
+pub fn encode(case: &Case, samples: &[i32], mode: Mode) -> Result<Stream, EncFail> {
+    let cfg = verified(&case.cfg, mode == Mode::Mt, case.input.bs as usize)?;
+    match mode {
+        Mode::St | Mode::Mt => encode_stream(&case.input, samples, &cfg),
+        Mode::Frame => encode_framewise(&case.input, samples, &cfg),
+    }
+}
+
 /// One encode of `case` in `mode`, down to bytes.
 pub fn encode_bytes(case: &Case, samples: &[i32], mode: Mode) -> Result<(Stream, Vec<u8>), EncFail> {
-    let cfg = verified(&case.cfg, mode == Mode::Mt, case.input.bs as usize)?;
-    let s = match mode {
-        Mode::St | Mode::Mt => encode_stream(&case.input, samples, &cfg)?,
-        Mode::Frame => encode_framewise(&case.input, samples, &cfg)?,
-    };
+    let s = encode(case, samples, mode)?;
     let b = stream_bytes(&s)?;
     Ok((s, b))
+}
+
+/// In the quick tier the multi-thread path (thread creation dominates its cost) is exercised for
+/// every case with at most one deviation and for every case whose `workers` coordinate deviates;
+/// the thorough tier extends this to two deviations. Byte equality of MT and ST output under every
+/// interleaving is C05's subject.
+pub fn mt_in_scope(thorough: bool, labels: &[String]) -> bool {
+    let lim = if thorough { 2 } else { 1 };
+    labels.len() <= lim && !labels.iter().any(|l| l.starts_with('G')) || labels.iter().any(|l| l.starts_with("workers#")) || labels.iter().any(|l| l == "replay")
 }
 
 /// Decodes with claxon: (rate, channels, bps, total samples, interleaved samples).
